@@ -391,19 +391,14 @@ def shapePara (p : Para) : Bool :=
 
 /-- **shape** ("a machine-readable file"): a header paragraph with a Format field first, every
     other paragraph a Files paragraph or a stand-alone licence paragraph. This is exactly what the
-    lossy reader accepts (`Props.C17.C17_lossy_accepts_iff`); the lossless reader asks for nothing. -/
+    lossy reader accepts (`Props.C17.C17_lossy_accepts_iff`); the lossless reader asks for nothing.
+    Nothing else is asked of the header: it may carry a `License` field (licence of the package as
+    a whole, DEP-5) or any other field — both readers set the first paragraph aside (the lossless
+    one since fix b19e977, `Props.C17.C17_header_set_aside`). -/
 def lossyShape (c : Doc) : Bool :=
   match c with
   | [] => false
   | h :: rest => (h.get kFormat).isSome && rest.all shapePara
-
-/-- **header only**: the first paragraph is only a header — it has neither a Files nor a License
-    field (the lossless `iter_files`/`iter_licenses` run over the first paragraph too, the lossy
-    reader sets it aside as the header) -/
-def headerOnly (c : Doc) : Bool :=
-  match c with
-  | [] => true
-  | h :: _ => (h.get kFiles).isNone && (h.get kLicense).isNone
 
 /-- **licences named**: no stand-alone licence field begins with an empty line. (Lossless: the
     name of such a paragraph is the empty string; lossy: `License::Text` has no name. The deb822
@@ -418,7 +413,7 @@ def patternsValid (c : Doc) : Bool :=
 
 /-- inside the property's quantifier -/
 def wellFormed (c : Doc) : Bool :=
-  lossyShape c && headerOnly c && licenceNamed c && patternsValid c
+  lossyShape c && licenceNamed c && patternsValid c
 
 end Spec
 
